@@ -123,6 +123,30 @@ Times(i, j) ==
   /\ NoReg([op |-> "times", i |-> i, j |-> j])
   /\ UNCHANGED objs
   /\ sres' = [k |-> "obj", o |-> [v |-> RMul(SI(objs[i]), SI(objs[j])), s |-> ROne, d |-> DAdd(objs[i].d, objs[j].d)]]
+\* x / y : the same machinery (array._divide_units); reported by what it denotes
+ExNeg(a) == [k \in Keys |-> -a[k]]
+OverLooks(i, j) == LET ex == ExAdd(objs[i].ex, ExNeg(objs[j].ex)) IN IF AbsSum(ex) >= 2 THEN {k \in Keys : ex[k] # 0} ELSE {}
+OverPlain(i, j) == \A k \in OverLooks(i, j) : lut[k].scale # 0
+Over(i, j) ==
+  /\ i \in DOMAIN objs /\ j \in DOMAIN objs /\ OverPlain(i, j) /\ Small(objs[i]) /\ Small(objs[j])
+  /\ NoReg([op |-> "over", i |-> i, j |-> j])
+  /\ UNCHANGED objs
+  /\ sres' = [k |-> "obj", o |-> [v |-> RDiv(SI(objs[i]), SI(objs[j])), s |-> ROne, d |-> DSub(objs[i].d, objs[j].d)]]
+\* x.to(y.units) / x.convert_to_units(y.units): the target is a Unit OBJECT (another quantity's label, whatever its
+\* spelling means now); no string is read, the factor is taken from the two objects' own scales
+ConvertedU(o, t) == [v |-> RDiv(SI(o), t.s), s |-> t.s, d |-> t.d, ex |-> t.ex, h |-> o.h]
+ToU(i, j) ==
+  /\ i \in DOMAIN objs /\ j \in DOMAIN objs /\ Len(objs) < MaxObj
+  /\ NoReg([op |-> "tou", i |-> i, j |-> j])
+  /\ IF objs[i].d = objs[j].d
+     THEN LET o == ConvertedU(objs[i], objs[j]) IN /\ objs' = Append(objs, o) /\ sres' = ObjRes(o)
+     ELSE /\ UNCHANGED objs /\ sres' = Raise
+ConvInU(i, j) ==
+  /\ i \in DOMAIN objs /\ j \in DOMAIN objs
+  /\ NoReg([op |-> "convinu", i |-> i, j |-> j])
+  /\ IF objs[i].d = objs[j].d
+     THEN LET o == ConvertedU(objs[i], objs[j]) IN /\ objs' = [objs EXCEPT ![i] = o] /\ sres' = ObjRes(o)
+     ELSE /\ UNCHANGED objs /\ sres' = Raise
 \* x == y (False across dimensions) and x < y (refused across dimensions)
 Cmp(c, i, j) ==
   /\ i \in DOMAIN objs /\ j \in DOMAIN objs
@@ -158,6 +182,8 @@ RefConv(t, o, p) == LET w == RefResolve(t, p) IN
                     IF w.k = "unit" /\ w.d = o.d THEN [k |-> "obj", o |-> [v |-> RDiv(RMul(o.v, o.s), w.s), s |-> w.s, d |-> w.d]] ELSE Raise
 RefPlus(a, b) == IF a.d = b.d THEN [k |-> "obj", o |-> [v |-> RAdd(a.v, RDiv(RMul(b.v, b.s), a.s)), s |-> a.s, d |-> a.d]] ELSE Raise
 RefTimes(a, b) == [k |-> "obj", o |-> [v |-> RMul(RMul(a.v, a.s), RMul(b.v, b.s)), s |-> ROne, d |-> DAdd(a.d, b.d)]]
+RefOver(a, b) == [k |-> "obj", o |-> [v |-> RDiv(RMul(a.v, a.s), RMul(b.v, b.s)), s |-> ROne, d |-> DSub(a.d, b.d)]]
+RefConvU(a, b) == IF a.d = b.d THEN [k |-> "obj", o |-> [v |-> RDiv(RMul(a.v, a.s), b.s), s |-> b.s, d |-> b.d]] ELSE Raise
 RefCmp(c, a, b) == IF a.d # b.d THEN (IF c = "eq" THEN [k |-> "bool", b |-> FALSE] ELSE Raise)
                    ELSE [k |-> "bool", b |-> IF c = "eq" THEN RMul(a.v, a.s) = RMul(b.v, b.s) ELSE RLt(RMul(a.v, a.s), RMul(b.v, b.s))]
 RefSame(a) == [k |-> "obj", o |-> a]
